@@ -148,6 +148,7 @@ type flight struct {
 type world struct {
 	h        *hub.Hub
 	l        *vh.Log
+	md       *vh.FakeMdns
 	rd       *c10Reader
 	skis     []string // index -> SKI (peers, then ballast)
 	lis      [c10NSki]net.Listener
@@ -187,7 +188,8 @@ func newWorld(ballast int, localSKI string) *world {
 	}
 	local := api.NewServiceDetails(localSKI)
 	local.SetShipID("local-ship-id")
-	w.h = hub.NewHub(w.rd, &vh.FakeMdns{L: w.l}, 0, c10Local, local)
+	w.md = &vh.FakeMdns{L: w.l}
+	w.h = hub.NewHub(w.rd, w.md, 0, c10Local, local)
 	for i := 0; i < c10NSki; i++ {
 		l, err := net.Listen("tcp", "127.0.0.1:0")
 		if err != nil {
@@ -797,11 +799,24 @@ func runC10Seq(r *vh.Rng, maxLen int) seqResult {
 		case c < 36:
 			w.sawUser = true
 			w.shutdown = true
+			// a delayed dial whose delay runs out while Shutdown is still under way (inside the
+			// provider's Shutdown): Shutdown has been invoked, so it is LShutdown then LFire
+			var during *grpItem
+			var pre []string
+			if len(pend) > 0 && r.Chance(50) {
+				kk := vh.Pick(r, pend)
+				w.md.OnShutdown = func() {
+					pre = w.l.Take()
+					it := w.fire(kk)
+					during = &it
+				}
+			}
 			func() {
 				defer func() { _ = recover() }()
 				w.h.Shutdown()
 			}()
-			lines := w.l.Take()
+			w.md.OnShutdown = nil
+			lines := append(pre, w.l.Take()...)
 			// the Close calls come in map order: canonical order = by SKI index
 			var head, closes []string
 			for _, ln := range lines {
@@ -812,7 +827,11 @@ func runC10Seq(r *vh.Rng, maxLen int) seqResult {
 				}
 			}
 			sort.Slice(closes, func(a, b int) bool { return w.closeKey(closes[a]) < w.closeKey(closes[b]) })
-			add(grpItem{label: "LShutdown", obs: append(head, closes...)})
+			if during != nil {
+				add(grpItem{label: "LShutdown", obs: append(head, closes...)}, *during)
+			} else {
+				add(grpItem{label: "LShutdown", obs: append(head, closes...)})
+			}
 		case c < 39:
 			v := r.Intn(len(c10ShipIDs))
 			w.shipid[k] = v
